@@ -13,6 +13,7 @@ import (
 	"path/filepath"
 	"strings"
 	"sync"
+	"sync/atomic"
 	"time"
 )
 
@@ -43,6 +44,7 @@ type solveResult struct {
 	All    map[string]string
 }
 
+var fileCtr int64
 var workDir string
 var solverSeed int
 
@@ -68,7 +70,7 @@ var statSolverTime float64
 // solve races the solvers on one script. wantModel adds (get-model) handling for sat answers.
 func solve(script string, timeoutS int, only string) solveResult {
 	sum := sha256.Sum256([]byte(script))
-	file := filepath.Join(workDir, hex.EncodeToString(sum[:8])+".smt2")
+	file := filepath.Join(workDir, fmt.Sprintf("%s-%d.smt2", hex.EncodeToString(sum[:8]), atomic.AddInt64(&fileCtr, 1)))
 	if err := os.WriteFile(file, []byte(script), 0o644); err != nil {
 		return solveResult{Result: "error", Output: err.Error()}
 	}
